@@ -8,6 +8,7 @@ KINDS = @@KINDS@@        # command kinds available in this shard
 FIRST = @@FIRST@@        # indexes (into KINDS) fixed for the first commands of the sequence (shard constant prefix)
 N = @@N@@                # sequence length
 SYMFLAGS = @@SYMFLAGS@@  # symbolic include_undocumented_* flags (C08.b)
+PREFIX = @@PREFIX@@      # concrete (kind, documented) commands placed before the symbolic ones: long files at no path cost
 FREE = @@FREE@@          # free regex shim with three distinct strip patterns (C03.c): re.sub(p, "", s) is the opaque term <p|s>
 _shim = hc.shim_re("free" if FREE else "real")
 PATS = {"function": "PF", "macro": "PM", "member": "PX"}
@@ -97,6 +98,13 @@ def check(ks: $$KT$$, docs: $$DT$$, flags: List[bool], lines: $$KT$$) -> bool:
         settings.input.member_parameter_name_strip_regex = PATS["member"]
         strip = lambda which, s: "<" + PATS[which] + "|" + s + ">"
     cmds = []
+    j = 0
+    for (pk, pd) in PREFIX:
+        pa = list(ARGS[pk])
+        if pa and pk not in ("ct_add_test", "ct_add_section", "add_test", "cmake_parse_arguments", "message", "if", "cpp_attr"):
+            pa[0] = pa[0] + "p" + str(j)
+        cmds.append(prog.cmd(pk, pa, DOC if pd else None, "d" + chr(10)))
+        j += 1
     for i in range(N):
         k = KINDS[ks[i]]
         a = list(ARGS[k])
@@ -104,7 +112,7 @@ def check(ks: $$KT$$, docs: $$DT$$, flags: List[bool], lines: $$KT$$) -> bool:
             a[0] = a[0] + str(i) if k not in ("cpp_attr",) else a[0]
         cmds.append(prog.cmd(k, a, DOC if docs[i] else None, "d" + chr(10)))
     try:
-        got = prog.real_page(cmds, settings, lines=list(lines))
+        got = prog.real_page(cmds, settings, lines=([1 + 5 * q for q in range(len(PREFIX))] + [5 * len(PREFIX) + x for x in lines]))
     except Exception:
         return hc.report(False, ks=ks, docs=docs, flags=flags, lines=lines)
     exp = prog.spec_page(cmds, flags=fl, strip=strip)
